@@ -35,10 +35,10 @@ func c06Parse(input []byte, stride int) (clause, detail string) {
 		var m *proto.Message
 		var err error
 		if p := guard(func() { m, err = parser.Next() }); p != "" {
+			if strings.HasPrefix(p, "loop budget exceeded") {
+				return "spin", fmt.Sprintf("Next does not terminate: %s (%d reads after end of stream)", shortPanic(p), r.ReadsAfterEnd())
+			}
 			return "panic", shortPanic(p)
-		}
-		if r.ReadsAfterEnd() > 3000000 {
-			return "spin", "parser keeps reading after end of stream"
 		}
 		if err != nil || m == nil {
 			return "", ""
